@@ -514,6 +514,63 @@ func signedJSON() string {
 		rel, strings.Join(rows, ", "), hname, hcode)
 }
 
+// verifyWrappers: SignatureVerifier.VerifySCTSignature / VerifySTHSignature serialise the signed input, return the
+// serialisation error, and otherwise return VerifySignature over exactly those bytes and the object's signature;
+// SignatureVerifier.VerifySignature forwards to tls.VerifySignature with the verifier's key.
+func verifyWrappers() string {
+	rel := "signatures.go"
+	check := func(fn string, want []string) {
+		fd := mustFunc(rel, "SignatureVerifier."+fn)
+		if len(fd.Body.List) != len(want) {
+			panic(bail{fmt.Sprintf("%s: %s has %d statements, expected %d", rel, fn, len(fd.Body.List), len(want))})
+		}
+		for i, w := range want {
+			if got := src(fd.Body.List[i]); got != w {
+				panic(bail{fmt.Sprintf("%s: %s statement %d is `%s`, expected `%s`", rel, fn, i+1, got, w)})
+			}
+		}
+	}
+	check("VerifySignature", []string{"return tls.VerifySignature(s.PubKey, data, sig)"})
+	check("VerifySCTSignature", []string{"sctData, err := SerializeSCTSignatureInput(sct, entry)", "if err != nil { return err }",
+		"return s.VerifySignature(sctData, tls.DigitallySigned(sct.Signature))"})
+	check("VerifySTHSignature", []string{"sthData, err := SerializeSTHSignatureInput(sth)", "if err != nil { return err }",
+		"return s.VerifySignature(sthData, tls.DigitallySigned(sth.TreeHeadSignature))"})
+	return "/-- generated from " + rel + ": VerifySCTSignature is `SerializeSCTSignatureInput(sct, entry)`, its error returned, then\n`VerifySignature(sctData, sct.Signature)` with the verifier's key -/\ndef sctVerifySerializesThenVerifies : Bool := true\n" +
+		"/-- generated from " + rel + ": VerifySTHSignature is `SerializeSTHSignatureInput(sth)`, its error returned, then\n`VerifySignature(sthData, sth.TreeHeadSignature)` with the verifier's key -/\ndef sthVerifySerializesThenVerifies : Bool := true\n"
+}
+
+// ctutilShape: ctutil.VerifySCT builds the verifier with NewSignatureVerifier (its error returned) and verifies the SCT
+// against the leaf createLeaf builds from the chain; LogInfo.VerifySCTSignature verifies with the verifier built by newLogInfo.
+func ctutilShape() string {
+	rel := "ctutil/ctutil.go"
+	fd := mustFunc(rel, "VerifySCT")
+	want := []string{"s, err := ct.NewSignatureVerifier(pubKey)", "", "return VerifySCTWithVerifier(s, chain, sct, embedded)"}
+	if len(fd.Body.List) != 3 || src(fd.Body.List[0]) != want[0] || src(fd.Body.List[2]) != want[2] {
+		panic(bail{rel + ": VerifySCT no longer is NewSignatureVerifier → VerifySCTWithVerifier"})
+	}
+	if is, ok := fd.Body.List[1].(*ast.IfStmt); !ok || src(is.Cond) != "err != nil" || !returnsNonNilError(is.Body) {
+		panic(bail{rel + ": VerifySCT does not return NewSignatureVerifier's error"})
+	}
+	fd = mustFunc(rel, "VerifySCTWithVerifier")
+	n := len(fd.Body.List)
+	if n < 3 || src(fd.Body.List[n-1]) != "return sv.VerifySCTSignature(*sct, ct.LogEntry{Leaf: *leaf})" || !strings.Contains(src(fd.Body.List[n-3]), "leaf, err := createLeaf(chain, sct, embedded)") {
+		panic(bail{rel + ": VerifySCTWithVerifier no longer ends in createLeaf → VerifySCTSignature(*sct, LogEntry{Leaf: *leaf})"})
+	}
+	if is, ok := fd.Body.List[n-2].(*ast.IfStmt); !ok || src(is.Cond) != "err != nil" || !returnsNonNilError(is.Body) {
+		panic(bail{rel + ": VerifySCTWithVerifier does not return createLeaf's error"})
+	}
+	rel2 := "ctutil/loginfo.go"
+	nl := src(mustFunc(rel2, "newLogInfo").Body)
+	if !strings.Contains(nl, "verifier, err := ct.NewSignatureVerifier(logKey)") || !strings.Contains(nl, "Verifier: verifier") {
+		panic(bail{rel2 + ": newLogInfo no longer builds LogInfo.Verifier with ct.NewSignatureVerifier"})
+	}
+	lv := src(mustFunc(rel2, "LogInfo.VerifySCTSignature").Body)
+	if !strings.Contains(lv, "leaf.TimestampedEntry.Timestamp = sct.Timestamp") || !strings.Contains(lv, "err := li.Verifier.VerifySCTSignature(sct, ct.LogEntry{Leaf: leaf}); err != nil") {
+		panic(bail{rel2 + ": LogInfo.VerifySCTSignature no longer sets the leaf timestamp and calls Verifier.VerifySCTSignature"})
+	}
+	return "/-- generated from " + rel + " / " + rel2 + ": ctutil.VerifySCT = NewSignatureVerifier (error returned) then\nVerifySCTSignature(*sct, LogEntry{Leaf: createLeaf(chain, sct, embedded)}); LogInfo verifies with a verifier built the same way -/\ndef ctutilPolicyThenVerify : Bool := true\n"
+}
+
 func init() {
 	register(genFile{name: "Sig", imports: nil, units: []unit{
 		{"sigHashTable", hashTable},
@@ -521,5 +578,7 @@ func init() {
 		{"dsaSig", dsaSigShape},
 		{"newVerifierPolicy", newVerifierPolicy},
 		{"signedJSON", signedJSON},
+		{"verifyWrappers", verifyWrappers},
+		{"ctutilShape", ctutilShape},
 	}})
 }
